@@ -16,14 +16,22 @@ package main
 //               the client) precede the sentinel on both paths.
 //   server op:  the downstream handler emits the scripted message followed by
 //               the sentinel NOTICE.
+//   start op:   a new connection on the SAME handler value begins in the slot
+//               (a new call of ServeNostr); the op returns after a sentinel
+//               round trip, i.e. when ServeNostrStart of every wrapper has run.
+//   end op:     the slot's connection ends (context cancelled); the op returns
+//               when ServeNostr has returned, i.e. after ServeNostrEnd of every
+//               wrapper.  Whatever the connection left open stays open.
 //
 // Observed per op: the client messages that reached the downstream handler
-// and the server messages that reached the client, in order.
+// and the server messages that reached the client, in order (nothing for
+// start / end, and nothing for an op addressed to a slot without connection).
 
 import (
 	"context"
 	"encoding/json"
 	"fmt"
+	"math"
 	"sort"
 	"sync"
 	"time"
@@ -37,8 +45,9 @@ import (
 type mwEvent struct {
 	ID      string     `json:"id"`
 	PK      string     `json:"pk"`
-	DTS     int64      `json:"dts"` // input: created_at relative to the run's clock
-	TS      int64      `json:"ts"`  // filled at run time: now + dts
+	DTS     int64      `json:"dts"`           // input: created_at relative to the origin
+	Org     string     `json:"org,omitempty"` // origin of dts: "" the run's clock, "epoch" 0 (dts is absolute), "wrap" math.MinInt64 + clock
+	TS      int64      `json:"ts"`            // filled at run time: origin + dts
 	Kind    int64      `json:"kind"`
 	Tags    [][]string `json:"tags"`
 	Content string     `json:"content"`
@@ -73,8 +82,8 @@ type mwSpec struct {
 }
 
 type mwOp struct {
-	S int     `json:"s"` // session index
-	D string  `json:"d"` // "c" client message, "s" server message
+	S int     `json:"s"` // connection slot
+	D string  `json:"d"` // "c" client message, "s" server message, "start" / "end" of a connection in the slot
 	C *mwCMsg `json:"c,omitempty"`
 	M *mwSMsg `json:"m,omitempty"`
 }
@@ -92,7 +101,14 @@ var mwTimeouts int // sentinel round trips that timed out in this run
 // ---------------------------------------------------------------- conversions
 
 func (e *mwEvent) toEvent(now int64) *mocrelay.Event {
-	e.TS = now + e.DTS
+	switch e.Org {
+	case "epoch":
+		e.TS = e.DTS
+	case "wrap": // now - created_at = MaxInt64 + 1 - dts: the int64 difference wraps for dts <= 0
+		e.TS = math.MinInt64 + now + e.DTS
+	default:
+		e.TS = now + e.DTS
+	}
 	tags := make([]mocrelay.Tag, len(e.Tags))
 	for i, t := range e.Tags {
 		tags[i] = mocrelay.Tag(append([]string{}, t...))
@@ -369,6 +385,19 @@ func (s *mwSession) stop() {
 
 // run performs one operation and waits for the sentinel round trip.
 func (s *mwSession) run(op mwOp) mwObs {
+	if op.D == "c" {
+		return s.exchange([]mocrelay.ClientMsg{op.C.toMsg(s.now), &mocrelay.ClientCloseMsg{SubscriptionID: mwSentinel}}, nil)
+	}
+	return s.exchange(nil, []mocrelay.ServerMsg{op.M.toMsg(s.now)})
+}
+
+// sync is a sentinel round trip without a message: when it returns, every
+// wrapper of the connection has started and is serving.
+func (s *mwSession) sync() mwObs {
+	return s.exchange([]mocrelay.ClientMsg{&mocrelay.ClientCloseMsg{SubscriptionID: mwSentinel}}, nil)
+}
+
+func (s *mwSession) exchange(cq []mocrelay.ClientMsg, sq []mocrelay.ServerMsg) mwObs {
 	obs := mwObs{Down: []mwCMsg{}, Client: []mwSMsg{}}
 	if s.dead {
 		obs.Timeout = true
@@ -377,13 +406,6 @@ func (s *mwSession) run(op mwOp) mwObs {
 	s.mu.Lock()
 	s.down = nil
 	s.mu.Unlock()
-	var cq []mocrelay.ClientMsg
-	var sq []mocrelay.ServerMsg
-	if op.D == "c" {
-		cq = []mocrelay.ClientMsg{op.C.toMsg(s.now), &mocrelay.ClientCloseMsg{SubscriptionID: mwSentinel}}
-	} else {
-		sq = []mocrelay.ServerMsg{op.M.toMsg(s.now)}
-	}
 	// a sentinel that does not come back means a hung pipeline; wait long enough that
 	// machine load cannot be mistaken for it, but do not let a hanging mutant stall the run
 	wait := 6 * time.Second
@@ -432,23 +454,62 @@ func (s *mwSession) run(op mwOp) mwObs {
 	}
 }
 
-// mwRunSessions: nsess sessions of ONE handler value, operations executed one
-// at a time in the order of ops (the interleaving is chosen by the harness).
+// mwNormalize makes the life cycle explicit: a slot that is never started by
+// the history gets its start at the very beginning (the shape of cases written
+// before connections could come and go).
+func mwNormalize(nsess int, ops []mwOp) []mwOp {
+	started := make([]bool, nsess)
+	for _, op := range ops {
+		if op.D == "start" && op.S >= 0 && op.S < nsess {
+			started[op.S] = true
+		}
+	}
+	var pre []mwOp
+	for i, ok := range started {
+		if !ok {
+			pre = append(pre, mwOp{S: i, D: "start"})
+		}
+	}
+	return append(pre, ops...)
+}
+
+// mwRunSessions: nsess connection slots of ONE handler value, operations
+// executed one at a time in the order of ops (the interleaving, and when
+// connections begin and end, is chosen by the harness).
 func mwRunSessions(h mocrelay.Handler, nsess int, ops []mwOp, now int64) []mwObs {
 	ss := make([]*mwSession, nsess)
-	for i := range ss {
-		ss[i] = mwStart(h, now)
-	}
 	out := make([]mwObs, len(ops))
 	for i, op := range ops {
+		out[i] = mwObs{Down: []mwCMsg{}, Client: []mwSMsg{}}
 		if op.S < 0 || op.S >= nsess {
-			out[i] = mwObs{Down: []mwCMsg{}, Client: []mwSMsg{}, Timeout: true}
+			out[i].Timeout = true
 			continue
 		}
-		out[i] = ss[op.S].run(op)
+		switch op.D {
+		case "start":
+			if ss[op.S] != nil { // a slot is one connection at a time
+				ss[op.S].stop()
+			}
+			ss[op.S] = mwStart(h, now)
+			if o := ss[op.S].sync(); o.Timeout || len(o.Down) > 0 || len(o.Client) > 0 {
+				out[i] = o
+				out[i].Timeout = true
+			}
+		case "end":
+			if ss[op.S] != nil {
+				ss[op.S].stop()
+				ss[op.S] = nil
+			}
+		default:
+			if ss[op.S] != nil {
+				out[i] = ss[op.S].run(op)
+			}
+		}
 	}
 	for _, s := range ss {
-		s.stop()
+		if s != nil {
+			s.stop()
+		}
 	}
 	return out
 }
@@ -458,9 +519,39 @@ func mwRunSessions(h mocrelay.Handler, nsess int, ops []mwOp, now int64) []mwObs
 var mwSubIDs = []string{"a", "ab", "abc", "abcd"}
 var mwContents = []string{"", "1", "12", "123", "1234", "ééééé"}
 
+// created_at is any int64: besides the offsets around the limits, the ends
+// of the int64 range and the edges of every representation the value passes
+// through on its way to a comparison with the clock: the point below which
+// the int64 difference now-created_at wraps (created_at < now-MaxInt64), the
+// +-292 years at which time.Duration saturates, year 1 (the zero of
+// time.Time's internal seconds), the 32- and 53-bit edges, and the largest
+// second time.Unix represents without wrapping its internal offset
+// (MaxInt64-62135596800; beyond it time.Unix wraps into the remote past: see
+// the assumptions of the property).  None of them is within years of a limit.
+type mwTS struct {
+	Org string
+	DTS int64
+}
+
+const mwUnixToInternal = 62135596800 // seconds from year 1 to 1970 (package time)
+
+var mwExtremeTS = []mwTS{
+	{"epoch", math.MinInt64}, {"epoch", math.MinInt64 + 1},
+	{"wrap", -60}, {"wrap", -5}, {"wrap", 5}, {"wrap", 60},
+	{"epoch", -(1 << 62)}, {"epoch", -(1 << 53)},
+	{"", -9223372036 - 60}, {"", -9223372036 + 60},
+	{"epoch", -mwUnixToInternal - 1}, {"epoch", -mwUnixToInternal},
+	{"epoch", -(1 << 31) - 1}, {"epoch", -1}, {"epoch", 0}, {"epoch", 1},
+	{"epoch", 1<<31 - 1}, {"epoch", 1 << 31}, {"epoch", 1 << 32},
+	{"", 9223372036 - 60}, {"", 9223372036 + 60},
+	{"epoch", 1 << 53}, {"epoch", 1 << 62},
+	{"epoch", math.MaxInt64 - mwUnixToInternal - 1}, {"epoch", math.MaxInt64 - mwUnixToInternal},
+}
+
 type mwGen struct {
 	r        *common.Rand
 	offsets  []int64 // admissible created_at offsets
+	extreme  int     // percentage of events with a created_at from mwExtremeTS
 	evIDs    []string
 	subIDs   []string
 	maxSubID int // 0 = any
@@ -477,7 +568,67 @@ func (g *mwGen) event() *mwEvent {
 	}
 	e.Content = common.Pick(g.r, mwContents)
 	e.DTS = common.Pick(g.r, g.offsets)
+	if g.r.Chance(g.extreme) {
+		x := common.Pick(g.r, mwExtremeTS)
+		e.Org, e.DTS = x.Org, x.DTS
+	}
 	return e
+}
+
+// mwSchedule lays nOps operations drawn from gen out over connections that
+// come and go on one handler value: at most maxLive connections at a time in
+// at most maxSlots slots; before an operation, with probability churn percent,
+// a connection begins, one ends, or one ends and another begins right after
+// it (in a new slot, or in a slot whose connection has ended).  Connections
+// end without tidying up: what they opened stays open.
+func mwSchedule(r *common.Rand, maxSlots, maxLive, nOps, churn int, gen func() mwOp) ([]mwOp, int) {
+	var ops []mwOp
+	var live, ended []int
+	next := 0
+	start := func() {
+		var s int
+		switch {
+		case next < maxSlots && (len(ended) == 0 || r.Chance(60)):
+			s = next
+			next++
+		case len(ended) > 0:
+			k := r.Intn(len(ended))
+			s = ended[k]
+			ended = append(ended[:k], ended[k+1:]...)
+		default:
+			return
+		}
+		live = append(live, s)
+		ops = append(ops, mwOp{S: s, D: "start"})
+	}
+	end := func() {
+		k := r.Intn(len(live))
+		s := live[k]
+		live = append(live[:k], live[k+1:]...)
+		ended = append(ended, s)
+		ops = append(ops, mwOp{S: s, D: "end"})
+	}
+	start()
+	for j := 0; j < nOps; j++ {
+		if r.Chance(churn) {
+			switch k := r.Intn(3); {
+			case k == 0 && len(live) < maxLive:
+				start()
+			case k == 1 && len(live) > 1:
+				end()
+			default:
+				end()
+				start()
+			}
+		}
+		if len(live) == 0 { // every slot used up and ended: nothing can be addressed any more
+			break
+		}
+		op := gen()
+		op.S = common.Pick(r, live)
+		ops = append(ops, op)
+	}
+	return ops, next
 }
 
 func (g *mwGen) filters() []common.JFilter {
@@ -630,10 +781,11 @@ type c17Lim struct {
 }
 
 type c17Case struct {
-	K     string   `json:"k"`             // "stack" | "nip11"
-	Mws   []mwSpec `json:"mws,omitempty"` // stack: outermost first
-	Doc   string   `json:"doc,omitempty"` // nip11: "nil" (nil pointer) | "nolim" (no limitation block) | "lim"
+	K     string   `json:"k"`               // "stack" | "nip11"
+	Mws   []mwSpec `json:"mws,omitempty"`   // stack: outermost first
+	Doc   string   `json:"doc,omitempty"`   // nip11: "nil" (nil pointer) | "nolim" (no limitation block) | "lim"
 	Lim   *c17Lim  `json:"lim,omitempty"`
+	NSess int      `json:"nsess,omitempty"` // connection slots of the one middleware value (0 = 1)
 	Ops   []mwOp   `json:"ops"`
 	Now   int64    `json:"now"`
 	Built string   `json:"built"` // "ok" | "panic" (building or applying the middleware panicked)
@@ -681,32 +833,43 @@ func c17Run(c *c17Case) {
 		}
 		h = mw(mwDown{})
 	}()
+	if c.NSess < 1 {
+		c.NSess = 1
+	}
+	c.Ops = mwNormalize(c.NSess, c.Ops)
 	if c.Built != "ok" {
 		c.Obs = []mwObs{}
 		return
 	}
-	for i := range c.Ops {
-		c.Ops[i].S = 0
-	}
-	c.Obs = mwRunSessions(h, 1, c.Ops, c.Now)
+	c.Obs = mwRunSessions(h, c.NSess, c.Ops, c.Now)
 }
 
-func c17Ops(g *mwGen, n int) []mwOp {
-	ops := make([]mwOp, 0, n)
-	for i := 0; i < n; i++ {
-		if g.r.Chance(75) {
-			ops = append(ops, mwOp{D: "c", C: g.cmsg()})
-		} else {
-			ops = append(ops, mwOp{D: "s", M: g.smsg()})
-		}
+func c17Op(g *mwGen) mwOp {
+	if g.r.Chance(75) {
+		return mwOp{D: "c", C: g.cmsg()}
 	}
-	return ops
+	return mwOp{D: "s", M: g.smsg()}
+}
+
+// c17Ops: three cases in four one connection from beginning to end; in the
+// fourth the middleware value serves up to three connections, two at a time,
+// that come and go (a later connection must be treated as the first one was).
+func c17Ops(g *mwGen, n int, c *c17Case) {
+	if g.r.Chance(75) {
+		c.NSess = 1
+		c.Ops = []mwOp{{S: 0, D: "start"}}
+		for i := 0; i < n; i++ {
+			c.Ops = append(c.Ops, c17Op(g))
+		}
+		return
+	}
+	c.Ops, c.NSess = mwSchedule(g.r, 3, 2, n+2, 22, func() mwOp { return c17Op(g) })
 }
 
 func c17Gen(root *common.Rand, i int) c17Case {
 	r := root.Fork(uint64(i))
 	var c c17Case
-	g := &mwGen{r: r, evIDs: []string{"x", "y", "z"}, subIDs: mwSubIDs}
+	g := &mwGen{r: r, evIDs: []string{"x", "y", "z"}, subIDs: mwSubIDs, extreme: 12}
 	if i%5 < 3 {
 		c.K = "stack"
 		n := 1
@@ -721,7 +884,7 @@ func c17Gen(root *common.Rand, i int) c17Case {
 			c.Mws = append(c.Mws, mwRandomSpec(r, kind))
 		}
 		g.offsets = mwOffsets(mwSpecBounds(c.Mws))
-		c.Ops = c17Ops(g, 6+r.Intn(8))
+		c17Ops(g, 6+r.Intn(8), &c)
 		return c
 	}
 	c.K = "nip11"
@@ -779,7 +942,7 @@ func c17Gen(root *common.Rand, i int) c17Case {
 		g.offsets = mwOffsets(nil)
 	}
 	g.subIDs = []string{"a", "b", "c", "ab", "abc"}
-	c.Ops = c17Ops(g, 6+r.Intn(9))
+	c17Ops(g, 6+r.Intn(9), &c)
 	return c
 }
 
